@@ -3,8 +3,10 @@ import random, warnings
 from . import gallina as G
 from . import common as C
 from .hgsim import rattr, observe, obs_to_gallina, dedup_named, bunch_arg
+from . import hgsim as _H
 
 ITER_OK = True     # member collections may be presented as tuples / one-shot iterators (common.members)
+INTLIKE_OK = True  # explicit integer ids may be presented as numpy integers / whole floats (hgsim.PRESENT)
 STYLES = ["int", "int", "int", "str", "mixed"]
 
 
@@ -145,7 +147,7 @@ def apply_op(S, op):
                 if idx is None:
                     S.add_simplex(C.members(ms), **a)
                 else:
-                    S.add_simplex(C.members(ms), idx=idx, **a)
+                    S.add_simplex(C.members(ms), idx=_H._pres(idx), **a)
             elif name == "add_edge":
                 _, ms, a = op
                 extra["fs_order"] = list(frozenset(ms))
@@ -286,7 +288,7 @@ def run_history(ops_or_gen, length=None, rng=None, style=None, malformed=False, 
     for i in range(n):
         if freeze_at is not None and i == freeze_at:
             S.freeze()
-        op = gen_op(rng, S, nodes, eids, malformed) if ops_or_gen is None else ops_or_gen[i]
+        op = _H._norm(gen_op(rng, S, nodes, eids, malformed)) if ops_or_gen is None else ops_or_gen[i]
         extra, exc, nwarn = apply_op(S, op)
         ob = observe(S)
         ob["has_probes"] = has_probes(S, prng)
